@@ -163,6 +163,19 @@ def step (st : St) (t : List String) : St × String :=
       if !st.have_ || p ≥ st.bytes.length || b > 255 then (st, "bad-op")
       else (st, showOutcome (dec st (st.bytes.set p (UInt8.ofNat b))))
     | _, _ => (st, "bad-op")
+  | "m" :: ps =>
+    match ps.mapM String.toNat? with
+    | some l =>
+      let rec pairs : List Nat → Option (List (Nat × Nat))
+        | [] => some []
+        | [_] => none
+        | p :: b :: r => (pairs r).map ((p, b) :: ·)
+      match pairs l with
+      | some pb =>
+        if !st.have_ || pb.isEmpty || pb.any (fun (p, b) => p ≥ st.bytes.length || b > 255) then (st, "bad-op")
+        else (st, showOutcome (dec st (pb.foldl (fun bs (p, b) => bs.set p (UInt8.ofNat b)) st.bytes)))
+      | none => (st, "bad-op")
+    | none => (st, "bad-op")
   | ["tall"] =>
     if !st.have_ then (st, "bad-op") else
     (st, rle 0 ((List.range st.bytes.length).map fun k => shortOutcome (dec st (st.bytes.take k))))
